@@ -35,6 +35,13 @@ CLAIMS["C04"] = (
     "DESIGN.md §3 C04",
 )
 
+CLAIMS["C20"] = (
+    "typestate / value-flow / control-dependence over the SSA of output.MultiOutputHandlerManager and its users; constructor-literal kinds; lock-region path rule",
+    "Decides the handle-cache protocol behind 'any number of targets': evicted handler closed outside the lock with the error kept and the evicted key recorded; truncating reopen control-dependent on the evicted-names lookup; O_TRUNC/O_APPEND flag agreement; mutex balanced on every path and LRU helpers only under it; every DSL redirect manager registered and closed at end of stream; redirect operator ↔ manager kind in all builders; writer shutdown order in FileOutputHandler.Close; tee/split copy the record and close at end of stream; tee does not relay downstream-done; loss of per-target writer state on eviction (known finding). It does not decide which records reach which target.",
+    "Trusts go/ssa and the frozen library facts (sync.Mutex semantics, O_* flag values for linux). Known finding K5 is listed in known_findings.jsonl.",
+    "DESIGN.md §3 C20",
+)
+
 NOT_APPLICABLE = {
     "C13": "Join pairing, ordering and unpaired accounting are relational identities over run-time key values and bucket contents; no clause is a shape fact visible to static analysis (the shared protocol facts are reported under C04/C10/C17).",
 }
